@@ -1,4 +1,7 @@
 import SasLexer.Spec.Basic
+import SasLexer.Proofs.Model.ErrOrdFns
+import SasLexer.Proofs.Model.ErrAnch
+import SasLexer.Properties.C04
 import SasLexer.Properties.C03
 import SasLexer.Proofs.Kernel.ErrAnchor
 /-!
@@ -12,12 +15,24 @@ Full-strength statement: `C09_statement`.  Proved for **every control logic** (k
   (errors truncated together with tokens, `fix:` commit) makes true; on the pinned tree it was
   refuted by `%do %m(a)=1 %to 3;`.
 
-Not proved (model level): "starts at or before the error", source order of errors, and the
+Not proved (model level): the
 one-to-one correspondence between `MissingExpected*` errors and zero-width recovery tokens.
 They depend on the control logic (e.g. that no error is emitted between a speculative token and
 its rollback other than through `lex_expected_token`, the delayed `OpenCodeRecursionError`), are
 decided per run by `Spec.C09` on implementation dumps and tied by correspondence on the
 (errors, token type/offset) projection.
+
+Proved for the model, **every input, both profiles, every ending** (`C09_model_order`): the clause `order` — errors are
+listed in non-decreasing source order.  Kernel invariant `KOrd` (`Proofs/Kernel/ErrOrder.lean`: sorted, at or before the
+cursor, checkpoint prefix at or before the checkpoint's cursor) is preserved by every primitive except that `emitPrepared`
+needs its side condition `PrepOk`; the discipline `ewp` (`Proofs/Model/ErrOrd*.lean`) shows that the control logic emits no
+error between `prepError` and `emitPrepared` (the one site: an open-code statement inside a string expression; the
+identifier lexer in between cannot emit one — keyword table theorem, mode stack known non-empty, pending-statement stack
+never empty).
+
+Likewise `C09_model_last_token`: the clause `last-token` in full — the named token exists **and starts at or before the
+error** (`KAnch`, `Proofs/Model/ErrAnch.lean`: the oldest `i + 1` tokens keep their byte offsets under every primitive, and at
+the moment an error is reported every token starts at or before the cursor — `SInv.le` of the sortedness discipline).
 -/
 namespace SasLexer
 
@@ -53,5 +68,171 @@ example : Spec.C09 "%do %m(a)=1 %to 3;".toList (modelDump ⟨false, false, false
 example : (modelDump ⟨true, true, false⟩ "%let a 1;".toList).errs.length = 1 ∧
     Spec.C09 "%let a 1;".toList (modelDump ⟨true, true, false⟩ "%let a 1;".toList) = [] := by
   decide +kernel
+
+theorem new_EInv (cfg : Cfg) (s : List Char) : EInv ⟨true, true⟩ (Lexer.new cfg s) := by
+  refine ⟨new_KOrd cfg s, fun _ => PrepOk.of_none (by simp [Lexer.new, Lexer.bufAddLine]), fun _ => ?_, ?_⟩
+  · simp [Lexer.new, Lexer.bufAddLine]
+  · simp [Lexer.new, Lexer.bufAddLine]
+
+theorem monotone_of_sorted : ∀ (l : List ErrInfo), ErrSorted l → Spec.monotone (l.reverse.map (·.byte)) = true := by
+  intro l h
+  -- ascending pairwise on the reversed list
+  have hp : (l.reverse.map (·.byte)).Pairwise (· ≤ ·) := by
+    rw [List.pairwise_map, List.pairwise_reverse]
+    exact h
+  generalize l.reverse.map (·.byte) = xs at hp
+  induction xs with
+  | nil => rfl
+  | cons a t ih =>
+    cases t with
+    | nil => rfl
+    | cons b r =>
+      simp only [Spec.monotone, Bool.and_eq_true, decide_eq_true_eq]
+      rw [List.pairwise_cons] at hp
+      exact ⟨hp.1 b (List.mem_cons_self ..), ih hp.2⟩
+
+/-- every run of the model leaves the error list sorted — whether or not it returns -/
+theorem lexProgram_KOrd (cfg : Cfg) (s : List Char) : ErrSorted (lexProgram cfg s).final.errsR := by
+  unfold lexProgram
+  simp only
+  have h0 := new_EInv cfg s
+  have hm := mainLoop_eok (cfg := cfg) (budgetMul * (Lexer.new cfg s).srcLen + 64) 0 ((Lexer.new cfg s).srcLen, [Mode.default])
+  unfold EOK at hm
+  have h1 := ewp_sound cfg _ (fun _ _ => True) ⟨true, true⟩ (Lexer.new cfg s) (hm _ _ (fun _ _ => trivial)) h0
+  generalize hR : Prog.run cfg (mainLoop cfg (budgetMul * (Lexer.new cfg s).srcLen + 64) 0 ((Lexer.new cfg s).srcLen, [Mode.default]))
+    (Lexer.new cfg s) = R at h1
+  obtain ⟨ra, L1⟩ := R
+  cases ra with
+  | none => exact h1.1.sorted
+  | some en =>
+    obtain ⟨e, n⟩ := en
+    simp only at h1 ⊢
+    obtain ⟨σ1, _, hi1⟩ := h1.2 (e, n) rfl
+    have hf := finalizeLexing_eok (cfg := cfg)
+    unfold EOK at hf
+    have h2 := (ewp_sound cfg _ (fun _ _ => True) σ1 L1 (hf _ _ (fun _ _ => trivial)) hi1).1
+    by_cases hdet : e = .detected
+    · subst hdet
+      simp only [beq_self_eq_true, if_true]
+      cases L1.panicked with
+      | some m => exact h1.1.sorted
+      | none => simp only; rw [intoDetached_errs]; exact h1.1.sorted
+    · have hb : (e == LoopEnd.detected) = false := by simpa using hdet
+      simp only [hb, Bool.false_eq_true, if_false]
+      cases (Prog.run cfg (finalizeLexing cfg) L1).2.panicked with
+      | some m => exact h2.sorted
+      | none => simp only; rw [intoDetached_errs]; exact h2.sorted
+
+/-- **C09, clause `order`, for the model: every input, both profiles, every ending** -/
+theorem C09_model_order (cfg : Cfg) (s : List Char) :
+    Spec.monotone ((modelDump cfg s).errs.map (·.byte)) = true := by
+  unfold modelDump
+  split
+  · rfl
+  · simp only
+    split
+    · split <;> rfl
+    · simp only [dumpOfBuf]
+      exact monotone_of_sorted _ (lexProgram_KOrd cfg s)
+
+
+/-- tokens of the detached buffer with an index below the work buffer's length are the work buffer's -/
+theorem intoDetached_getElem? (cfg : Cfg) (L : Lexer) (i : Nat) (hi : i < L.toksR.length) :
+    (L.intoDetached cfg).1.toks[i]? = L.toksR.reverse[i]? := by
+  unfold Lexer.intoDetached
+  have e : (if L.linesR.isEmpty = true then (L.bufAddLine cfg 0 0).2 else L).toksR = L.toksR := by split <;> rfl
+  generalize (if L.linesR.isEmpty = true then (L.bufAddLine cfg 0 0).2 else L) = L1 at e
+  simp only
+  cases hl : L1.toksR with
+  | nil => rw [e] at hl; simp [hl] at hi
+  | cons a b =>
+    simp only
+    split
+    · rw [e]
+    · simp only [List.reverse_cons]
+      rw [List.getElem?_append_left (by simp; rw [← e, hl] at hi; simpa using hi)]
+      rw [← List.reverse_cons, ← hl, e]
+
+/-- **C09, clause `last-token`, for the model: every input, both profiles, every ending**: the token an error names
+exists and starts at or before the error -/
+theorem model_error_anchor (cfg : Cfg) (s : List Char) (hend : (lexProgram cfg s).ending ≠ none) :
+    ∀ e ∈ (lexProgram cfg s).final.errsR, ∀ i, e.lastTok = some i →
+      ∃ t, (lexProgram cfg s).buf.toks[i]? = some t ∧ t.byte ≤ e.byte := by
+  unfold lexProgram at hend ⊢
+  simp only at hend ⊢
+  have h0 := new_SInv cfg s
+  have hm := mainLoop_sany (cfg := cfg) (budgetMul * (Lexer.new cfg s).srcLen + 64) 0 ((Lexer.new cfg s).srcLen, [Mode.default])
+  unfold SAny at hm
+  have h1 := run_anch cfg _ (fun _ _ => True) _ (Lexer.new cfg s) (hm _ _ (fun _ _ => trivial)) h0 (new_KErr cfg s) (new_KAnch cfg s)
+  have hk1 := run_KErr cfg (mainLoop cfg (budgetMul * (Lexer.new cfg s).srcLen + 64) 0 ((Lexer.new cfg s).srcLen, [Mode.default]))
+    (Lexer.new cfg s) (new_KErr cfg s)
+  generalize hR : Prog.run cfg (mainLoop cfg (budgetMul * (Lexer.new cfg s).srcLen + 64) 0 ((Lexer.new cfg s).srcLen, [Mode.default]))
+    (Lexer.new cfg s) = R at h1 hk1 hend
+  obtain ⟨ra, L1⟩ := R
+  have fin : ∀ (L : Lexer), KAnch L → KErr L →
+      ∀ e ∈ (L.intoDetached cfg).2.errsR, ∀ i, e.lastTok = some i → ∃ t, (L.intoDetached cfg).1.toks[i]? = some t ∧ t.byte ≤ e.byte := by
+    intro L ha hk e he i hi
+    rw [intoDetached_errs] at he
+    have hlt := hk.errs e he i hi
+    rw [intoDetached_getElem? cfg L i hlt]
+    have hex : ∃ t, L.toksR.reverse[i]? = some t := by
+      refine ⟨L.toksR.reverse[i]'(by simpa using hlt), ?_⟩
+      exact List.getElem?_eq_getElem _
+    obtain ⟨t, ht⟩ := hex
+    exact ⟨t, ht, ha.errs e he i hi t (mem_truncR_of_reverse_getElem? _ _ _ ht)⟩
+  cases ra with
+  | none => exact absurd rfl hend
+  | some en =>
+    obtain ⟨e, n⟩ := en
+    simp only at h1 hk1 hend ⊢
+    obtain ⟨σ1, _, hi1⟩ := h1.2 (e, n) rfl
+    by_cases hdet : e = .detected
+    · subst hdet
+      simp only [beq_self_eq_true, if_true] at hend ⊢
+      cases hp : L1.panicked with
+      | some m => simp [hp] at hend
+      | none => exact fin L1 h1.1 hk1
+    · have hb : (e == LoopEnd.detected) = false := by simpa using hdet
+      simp only [hb, Bool.false_eq_true, if_false] at hend ⊢
+      have hf := finalizeLexing_sany (cfg := cfg)
+      unfold SAny at hf
+      have h2 := run_anch cfg _ (fun _ _ => True) σ1 L1 (hf _ _ (fun _ _ => trivial)) hi1 hk1 h1.1
+      have hk2 := run_KErr cfg (finalizeLexing cfg) L1 hk1
+      cases hp : (Prog.run cfg (finalizeLexing cfg) L1).2.panicked with
+      | some m => simp [hp] at hend
+      | none => exact fin _ h2.1 hk2
+
+/-- clause `last-token` of `Spec.C09` on the model's dump -/
+theorem C09_model_last_token (cfg : Cfg) (s : List Char) :
+    ((modelDump cfg s).errs.all fun e =>
+        match e.lastTok with
+        | none => true
+        | some i => match (modelDump cfg s).toks[i]? with | some t => t.byte ≤ e.byte | none => false) = true := by
+  rw [List.all_eq_true]
+  unfold modelDump
+  split
+  · intro e he; simp [emptyDump] at he
+  · simp only
+    split
+    · split <;> (intro e he; simp [emptyDump] at he)
+    · rename_i en hen
+      simp only [dumpOfBuf]
+      intro e he
+      simp only [List.mem_reverse] at he
+      cases hl : e.lastTok with
+      | none => rfl
+      | some i =>
+        obtain ⟨t, ht, hb⟩ := model_error_anchor cfg s (by rw [hen]; simp) e he i hl
+        simp only [ht]
+        exact decide_eq_true hb
+
+
+
+/-- what the two theorems say on an input that exercises the prepared error (`%let` inside a string inside `%eval`), a
+recovery token, two unterminated strings and a missing parenthesis: five errors, in source order, each naming a token
+that starts at or before it -/
+example : ((modelDump ⟨true, true, false⟩ "%eval(\"a%let b\" (".toList).errs.map fun e => (e.kind, e.byte, e.lastTok)) =
+    [(.OpenCodeRecursionError, 8, some 3), (.MissingExpectedAssign, 14, some 6), (.UnterminatedStringLiteral, 17, some 8),
+     (.UnterminatedStringLiteral, 17, some 10), (.MissingExpectedRParen, 17, some 10)] := by decide +kernel
 
 end SasLexer
